@@ -169,6 +169,15 @@ func judge(rep *mbt.Report, tr irhist.Transition, st *stats, source string) {
 		rep.Fail(mbt.Failure{Signature: "C14|print twice|text differs|" + with.TwiceOp,
 			What: fmt.Sprintf("history %s: observer repeated at once gives another text -- %s", key, with.TwiceDiff), Case: c})
 	}
+	// a print that failed half way (WriteTo into a failing writer) leaves nothing behind for the print of another module
+	if with.OtherDiff != "" {
+		rep.Fail(mbt.Failure{Signature: "C14|observed history|text of an unrelated module differs|after WriteToFail",
+			What: fmt.Sprintf("history %s: %s", key, with.OtherDiff), Case: c})
+	}
+	if with.ObsDiff != "" {
+		rep.Fail(mbt.Failure{Signature: "C14|WriteTo into a failing writer|bytes delivered are not the beginning of the module text",
+			What: fmt.Sprintf("history %s: %s", key, with.ObsDiff), Case: c})
+	}
 	// after the final print, Func.LLString of each function is its part of the module text
 	for _, r := range []irhist.Result{with, without} {
 		if r.PartDiff != "" {
@@ -316,6 +325,9 @@ type emission struct {
 	label  string
 	consts map[string]string
 	exact  bool // replay with the abstract names as concrete names (name collisions)
+	// structs: the globals are built with a literal struct type of their own as content type, which the history
+	// names / fills after pointers to it exist (FieldEdits GlobalTypeName, GlobalTypeFill)
+	structs bool
 	t      *mbt.TLCResult
 }
 
@@ -357,9 +369,11 @@ func emitAll(rep *mbt.Report, ems []*emission, st *stats, timeout time.Duration)
 				continue
 			}
 			st.exact = e.exact
+			irhist.StructGlobals = e.structs
 			judge(rep, tr, st, label)
 		}
 		st.exact = false
+		irhist.StructGlobals = false
 		rep.TracesValidated += st.transitions - before
 		rep.Extra["transitions_"+label] = len(trs)
 		rep.Extra["tlc_wall_s_"+label] = t.Wall.Seconds()
@@ -422,6 +436,9 @@ func Run(tier, replay string) {
 		wide["MaxCalls"] = "5"
 		wide["MaxBlocks"] = "2"
 	}
+	// ... and the failing observer: Module.WriteTo into a writer that rejects the first byte / half of the text / the
+	// last byte (error or short write), followed at once by a print of this or of an unrelated module
+	wide["Observers"] = `{"PrintModule", "PrintFunc", "PrintBlock", "QueryType", "QueryIdent", "QueryOperands", "QuerySuccs", "WriteToFail"}`
 	ems = append(ems, &emission{label: "terminators", consts: wide})
 	// pure queries remembered (TrackQueries): histories "query, edit, print" -- Type() and Succs()
 	// fill the caches Typ / Successors, Retarget then changes what Succs() cached
@@ -462,6 +479,15 @@ func Run(tier, replay string) {
 		typedPreset["MaxCalls"] = "5"
 	}
 	ems = append(ems, &emission{label: "types-preset", consts: typedPreset})
+	// the spelling of a type changes after pointers to it exist: the global of the scaffold has a literal struct of its
+	// own as content type; Module.NewTypeDef names it (and the name is taken away again), a field is appended (and cut
+	// off again), after observers have rendered the global's pointer type
+	typeDefs := map[string]string{"MaxSrc": "0", "MaxCalls": "4", "Groups": `{"globals"}`, "MaxPerGroup": "1", "MaxParams": "0", "MaxBlocks": "1",
+		"MaxInsts": "3", "NewNames": `{""}`, "SetNames": `{}`, "InstRes": `{}`, "TermKinds": `{"ret"}`,
+		"InstOps": `{"use"}`, "RefTargets": `{"global"}`, "Preset": `"typed"`,
+		"FieldEdits":   `{"GlobalAddrSpace", "GlobalTypeName", "GlobalTypeFill"}`,
+		"TrackQueries": "TRUE", "StickyQueries": "TRUE", "Observers": `{"PrintModule", "PrintFunc", "QueryType", "WriteToFail"}`}
+	ems = append(ems, &emission{label: "typedefs", consts: typeDefs, structs: true})
 	// blockaddress of a block from a global initialiser and from another function (two functions)
 	blockaddr := map[string]string{"MaxSrc": "0", "MaxCalls": "5", "Groups": `{"globals"}`, "MaxFuncs": "2", "MaxBlocks": "2", "MaxInsts": "1",
 		"NewNames": `{""}`, "SetNames": `{"y"}`, "InstRes": `{"value"}`, "TermKinds": `{"ret"}`, "InstOps": `{"use"}`,
